@@ -286,15 +286,18 @@ func (r *latchRig) closer() func() {
 // finish: everything has been released; final Close by the driver (idempotence), unblock pending I/O,
 // operations after close, goroutine check.
 func (r *latchRig) finish(withOps bool) *fw.Trace {
-	if !r.s.Drain(5 * time.Second) {
-		return &fw.Trace{Status: fw.DriverError, Note: r.kind + ": closers did not finish: " + fmt.Sprint(r.s.Procs())}
-	}
+	// release everything that is parked (from here on every gate only passes), then close once more
+	// from the driver (idempotence; it also ends a read in flight that no closer of the behaviour ended)
+	r.s.Drain(time.Millisecond)
 	setHook(nil)
 	r.rec.add(fw.Event{"ev": "CloseCall", "p": "z"})
 	r.rec.guard("Close", r.closeFn)
 	r.rec.add(fw.Event{"ev": "CloseRet", "p": "z"})
 	if r.unblock != nil {
 		r.unblock()
+	}
+	if !r.s.Drain(8 * time.Second) {
+		return &fw.Trace{Status: fw.DriverError, Note: r.kind + ": processes did not finish: " + fmt.Sprint(r.s.Procs())}
 	}
 	if r.pending != nil {
 		select {
